@@ -135,6 +135,8 @@ static void gcm_case(const gcmfam_t *f, uint64_t c, int stream, int thorough)
                                         rng_t pr; rng_seed(&pr, mix64(c, 0x9a77 + (uint64_t) dir));     /* partition differs for enc and dec */
                                         uint32_t off = 0; size_t po = 0; int pieces = 0;
                                         int style = (int) rng_below(&pr, 5);
+                                        int maxp = (!nt && rng_below(&pr, 20) == 0) ? 3000 : 60;   /* now and then thousands of tiny updates */
+                                        if (maxp > 60) style = 0;
                                         while (1) {
                                                 uint32_t rem = len - off, carried = off & 15, need = 16 - carried, k;
                                                 if (nt) { k = 64 * rng_below(&pr, 1 + rem / 64 + 1); if (k > rem || rng_below(&pr, 4) == 0) k = rem; if (k < rem && (k & 63)) k &= ~63u; }
@@ -145,7 +147,7 @@ static void gcm_case(const gcmfam_t *f, uint64_t c, int stream, int thorough)
                                                 default: k = 16 * rng_below(&pr, 70) + rng_below(&pr, 2) * rng_below(&pr, 16); break;
                                                 }
                                                 if (k > rem) k = rem;
-                                                if (pieces > 60) k = rem;
+                                                if (pieces > maxp) k = rem;
                                                 /* coverage cell: carried residue x piece class */
                                                 uint32_t cls = k == 0 ? 0 : (carried && k < need) ? 1 : (carried && k == need) ? 2 : k < 128 ? 3 : k < 768 ? 4 : 5;
                                                 feat(mix64(0x57ea, mix64((uint64_t) (f - gcm_fams), mix64((uint64_t) carried, (uint64_t) cls * 8 + (uint64_t) (dir * 4 + ks * 2 + nt)))));
@@ -155,7 +157,7 @@ static void gcm_case(const gcmfam_t *f, uint64_t c, int stream, int thorough)
                                                 if (po + 8 < sizeof part) po += (size_t) snprintf(part + po, sizeof part - po, "%u,", k);
                                                 off += k; pieces++;
                                                 out_count("gcm_update_calls", 1);
-                                                if (off == len && (pieces > 60 || rng_below(&pr, 3))) break;
+                                                if (off == len && (pieces > maxp || rng_below(&pr, 3))) break;
                                         }
                                         if (route == R_FAM) f->s.fin[ks][dir](kd, ctx, tg, taglen);
                                         else if (route == R_LEGACY) gcm_legacy.s.fin[ks][dir](kd, ctx, tg, taglen);
